@@ -308,11 +308,12 @@ std::string judge2D(Task2D& t, int grid, int rt, int maxThreads) {
 
 struct QShared {
     int n, cap; std::vector<std::atomic<unsigned char> > started, done, deleted; std::vector<long> payload; std::atomic<int> nStarted{0};
+    std::atomic<int> destroying{0}, gatedStarted{0};   // shutdown-with-backlog scenario: gate tasks keep every worker busy until the producer is about to destroy the queue
     QShared(int n) : n(n), cap(0), started(n), done(n), deleted(n), payload(n, 0) { for (int i = 0; i < n; ++i) { started[i].store(0, RLX); done[i].store(0, RLX); deleted[i].store(0, RLX); } }
 };
 struct QTask : ParallelWorkQueue::Task {
-    QShared& s; int id; bool slow;
-    QTask(QShared& s, int id, bool slow) : s(s), id(id), slow(slow) {}
+    QShared& s; int id; bool slow, gated;
+    QTask(QShared& s, int id, bool slow, bool gated = false) : s(s), id(id), slow(slow), gated(gated) {}
     ~QTask() override {
         if (s.done[id].load(RLX) != 1) werr("queue task %d deleted without having been executed", id);
         if (s.deleted[id].fetch_add(1, RLX) != 0) werr("queue task %d deleted twice", id);
@@ -320,7 +321,13 @@ struct QTask : ParallelWorkQueue::Task {
     void execute() override {
         s.nStarted.fetch_add(1, RLX);
         if (s.started[id].fetch_add(1, RLX) != 0) werr("queue task %d executed more than once", id);
-        perturb(1, id); long v = s.payload[id]; perturb(2, id); if (slow) usleep(200); s.payload[id] = v + 7L * id + 1;
+        perturb(1, id); long v = s.payload[id]; perturb(2, id); if (slow) usleep(200);
+        if (gated) {   // occupy this worker until the producer announces the destruction (bounded: 500 x 100 us), then long enough for the destructor to have started
+            s.gatedStarted.fetch_add(1, RLX);
+            for (int k = 0; k < 500 && !s.destroying.load(RLX); ++k) usleep(100);
+            usleep(500);
+        }
+        s.payload[id] = v + 7L * id + 1;
         s.done[id].fetch_add(1, RLX);
     }
 };
@@ -465,18 +472,27 @@ void runP2D(const pbt::Tape& t, pbt::Ctx& ctx) {
 
 void runPWQ(const pbt::Tape& t, pbt::Ctx& ctx) {
     pbt::Reader g(t[0]); g.skip(1);
-    int T = decThreads(g, 16); int endMode = g.pick(3);      // 0 flush then destroy, 1/2 destroy with whatever is pending
+    int T = decThreads(g, 16);
+    // end of the queue's life: 0 = flush then destroy; otherwise destroy WITHOUT flush in a constructed, schedule-independent state:
+    // G gate tasks (each occupies one worker until the destruction is announced) followed by a backlog of B ordinary tasks.
+    // 3 = every worker busy and B >= 1 still queued (backlog > idle workers = 0), 2 = generated G in 0..T and B in 0..queueSize (with G < T
+    // the idle workers drain the backlog before the destruction: busy workers, empty queue)
+    static const int emTab[] = {3, 0, 2, 3}; int endMode = emTab[g.pick(4)]; const uint32_t emw = g.w();
     static const int qtab[] = {4, 1, 2, 3, 8, 16, 64, 5}; uint32_t qw = g.w(); int qsize = (qw & 1) ? qtab[(qw >> 1) % 8] : 1 + (int)((qw >> 1) % 64);
     struct Op { int add; bool flush; }; std::vector<Op> ops; int total = 0;
     { uint32_t w = g.w(); Op o; o.add = (w % 8 == 7) ? (int)((w >> 3) % 400) : (int)((w >> 3) % (3 * T + 3)); o.flush = false; ops.push_back(o); total += o.add; }
     for (size_t u = 1; u < t.size() && ops.size() < 40; ++u) { pbt::Reader r(t[u]); r.skip(6); uint32_t w = r.w(); Op o; o.add = (w % 8 == 7) ? (int)((w >> 3) % 400) : (int)((w >> 3) % (2 * qsize + 2));
         if (total + o.add > 2000) o.add = 2000 - total; o.flush = r.chance(1, 3); ops.push_back(o); total += o.add; }
+    // backlog <= queueSize: the producer never has to wait for a gated worker
+    const int gates = endMode == 3 ? T : endMode == 2 ? (int)(emw % (uint32_t)(T + 1)) : 0;
+    const int backlog = endMode == 3 ? 1 + (int)((emw >> 8) % (uint32_t)std::min(qsize, 12)) : endMode == 2 ? (int)((emw >> 8) % (uint32_t)(std::min(qsize, 12) + 1)) : 0;
+    const int userTotal = total; total += gates + backlog;
 #if C33_TSAN
     if (ctx.known("pwq-unlocked-loop-cond")) { ctx.label("excluded:pwq-unlocked-loop-cond(tsan tree)"); ctx.reject("known:pwq-unlocked-loop-cond"); return; }
 #endif
     if (ctx.wantDesc) { ctx.desc << "ParallelWorkQueue queueSize=" << qsize << " threads=" << T << " ops:"; for (auto& o : ops) ctx.desc << " add" << o.add << (o.flush ? ",flush" : "");
-        ctx.desc << (endMode == 0 ? " ; flush, destroy" : " ; destroy with pending work") << " ; schedule density=" << g_sched.density << "/64 rules=" << g_sched.rules.size() << "\n"; }
-    ctx.label("kind:ParallelWorkQueue"); ctx.label(tclass(T)); ctx.label(endMode == 0 ? "pwq:flush-then-destroy" : "pwq:destroy-with-pending");
+        ctx.desc << (endMode == 0 ? " ; flush, destroy" : " ; " + std::to_string(gates) + " gate tasks (busy workers) + backlog of " + std::to_string(backlog) + " queued tasks, destroy without flush") << " ; schedule density=" << g_sched.density << "/64 rules=" << g_sched.rules.size() << "\n"; }
+    ctx.label("kind:ParallelWorkQueue"); ctx.label(tclass(T)); ctx.label(endMode == 0 ? "pwq:flush-then-destroy" : gates == T && backlog > 0 ? "pwq:destroy-with-backlog>idle-workers" : "pwq:destroy-without-flush-queue-drained");
     if (total > qsize) ctx.label("pwq:more-tasks-than-queue");
     QShared sh(total); int added = 0; bool midFlush = false; g_sched.stride = std::max(1, total / 96);
     g_active.store(true, RLX);
@@ -490,8 +506,8 @@ void runPWQ(const pbt::Tape& t, pbt::Ctx& ctx) {
         };
         for (size_t k = 0; k < ops.size() && !ctx.failed; ++k) {
             for (int a = 0; a < ops[k].add && !ctx.failed; ++a) {
-                bool lastBatch = k + 1 == ops.size();   // slow tasks: the last one before a flush, and the tail of the final batch (so that work is still queued / running at flush and destruction)
-                bool slow = (a + 1 == ops[k].add && (ops[k].flush || lastBatch)) || (lastBatch && ops[k].add - a <= T + 2) || (mix(g_sched.seed, 79, (uint32_t)added) % 16 == 0);
+                // slow tasks: the last one before a flush (work is still running when flush() is called), and 1 in 16
+                bool slow = (a + 1 == ops[k].add && ops[k].flush) || (mix(g_sched.seed, 79, (uint32_t)added) % 16 == 0);
                 QTask* task = new QTask(sh, added, slow);
                 perturb(8, added);
                 { LibCall lc("ParallelWorkQueue::addTask"); q->addTask(task); }
@@ -502,6 +518,22 @@ void runPWQ(const pbt::Tape& t, pbt::Ctx& ctx) {
             if (ops[k].flush) { midFlush = true; { LibCall lc("ParallelWorkQueue::flush"); q->flush(); } checkDone("after flush() returned"); }
         }
         if (endMode == 0 && !ctx.failed) { { LibCall lc("ParallelWorkQueue::flush"); q->flush(); } checkDone("after the final flush() returned"); }
+        if (endMode != 0 && !ctx.failed) {
+            // `gates` gate tasks (each blocks one worker until `destroying` is set) followed by the backlog; then wait (bounded:
+            // 3000 x 100 us) until the gate tasks are running (the queue is FIFO, so all earlier tasks have been taken by then) and
+            // the earlier tasks are done, announce, destroy.  Exactly `gates` workers are then busy, T - gates idle, and `backlog`
+            // tasks queued when the destructor runs; the documented contract is that all of them are still executed and deleted.
+            for (int a = 0; a < gates + backlog && !ctx.failed; ++a) {
+                QTask* task = new QTask(sh, added, false, a < gates);
+                { LibCall lc("ParallelWorkQueue::addTask"); q->addTask(task); }
+                ++added;
+            }
+            // with an idle worker left (gates < T) the backlog is taken at once; wait for it so that the state at destruction is
+            // "gates workers busy, queue empty" whatever the schedule
+            auto othersDone = [&]() { for (int i = 0; i < added; ++i) if (!(i >= userTotal && i < userTotal + gates) && sh.done[i].load(RLX) != 1) return false; return true; };
+            for (int k = 0; k < 3000 && (sh.gatedStarted.load(RLX) < gates || (gates < T && !othersDone())); ++k) usleep(100);
+            sh.destroying.store(1, RLX);
+        }
         perturb(8, 9999);
         { LibCall lc("~ParallelWorkQueue"); delete q; }
         if (!ctx.failed) checkDone("after the queue was destroyed");
@@ -511,7 +543,7 @@ void runPWQ(const pbt::Tape& t, pbt::Ctx& ctx) {
     if (midFlush) ctx.label("pwq:flush-between-adds");
     if (!finishCase(ctx)) return;
     if (g_injected.load(RLX) > 0) ctx.label("injected-delay");
-    ctx.nontrivial(T >= 2 && total > T && g_injected.load(RLX) > 0);
+    ctx.nontrivial(T >= 2 && userTotal + backlog > T && (g_injected.load(RLX) > 0 || backlog > 0));
 }
 
 void property(const pbt::Tape& t, pbt::Ctx& ctx) {
@@ -651,7 +683,7 @@ pbt::Config config() {
     c.directed.push_back({"tsan-pexec-destructor-vs-worker-loop", "pexec-finished-race", [](pbt::Ctx& ctx) { runChild(ctx, "pexec", "80 x {ParallelExecutor(4); execute 16 and 3 tasks; destroy} under ThreadSanitizer"); }});
     c.directed.push_back({"tsan-pwq-worker-loop-condition", "pwq-unlocked-loop-cond", [](pbt::Ctx& ctx) { runChild(ctx, "pwq", "40 x {ParallelWorkQueue(4,3); add 8 tasks of 100 us; destroy with work pending} under ThreadSanitizer"); }});
     c.requiredLabels = {"kind:ParallelExecutor", "kind:Parallel2DExecutor", "kind:ParallelWorkQueue", "threads:17-32", "pex:repeated-execute", "2d:supplied-executor", "range:HalfMatrix", "range:HalfPlusDiagonal", "range:FullMatrix",
-                        "pwq:destroy-with-pending", "pwq:flush-between-adds", "injected-delay"};
+                        "pwq:destroy-without-flush-queue-drained", "pwq:destroy-with-backlog>idle-workers", "pwq:flush-between-adds", "injected-delay"};
     return c;
 }
 } // namespace
